@@ -46,25 +46,13 @@ Definition frame_is_success (f : frame) : bool :=
   | FT _ => false
   end.
 
-Definition check10 (c : case10) : N :=
+(* the oracles of C10 on one observed run: s0 = the single map before the command, s1 = after it *)
+Definition oracle10 (c : case10) (s0 s1 : store) : bool :=
   let p := q_proto c in
   let now := q_now c in
-  let '(l1w, l2, s0) := run_setup (q_setup c) empty_store empty_store empty_store now in
-  let l1 := if q_cold c then empty_store else l1w in
   let r := q_cmd c in
-  let '(st', cs, cst) := serve1_f (plan_of (q_tier c) (q_idx c) (q_fault c)) (orca_of (q_cfg c)) r
-                           (mkFS (mkTS l1 false 0) (mkTS l2 false 0)) now in
-  let s1 := match cmd_of r with Some cm => fst (spec_step s0 now cm) | None => s0 end in
-  let d1 := of_dump (q_l1 c) in
-  let d2 := of_dump (q_l2 c) in
-  let corr :=
-    bytes_eqb (render_all p cs) (q_reply c) &&
-    Bool.eqb (q_closed c) (match cst with Closed => true | Open => false end) &&
-    stores_agree now (q_keys c) (t_store (f1 st')) d1 &&
-    (if q_two c then stores_agree now (q_keys c) (t_store (f2 st')) d2 else true) in
   let acked := negb (q_closed c) && is_write r &&
                match decode p (q_reply c) with Some (f :: _) => frame_is_success f | _ => false end in
-  let oracle :=
     (* contained: only complete well-formed frames; unless the connection was closed, the request
        was answered: its own completion or an error reply, and every non-quiet key of a get *)
     match decode p (q_reply c) with
@@ -89,5 +77,38 @@ Definition check10 (c : case10) : N :=
                let ok_old := bytes_eqb rep (read_reply p k (live now s0 k)) in
                let ok_miss := bytes_eqb rep (read_reply p k None) in
                if acked && bytes_eqb k (write_key r) then ok_new || ok_miss
-               else ok_new || ok_old || ok_miss) (q_reads c) in
+               else ok_new || ok_old || ok_miss) (q_reads c).
+
+Definition check10 (c : case10) : N :=
+  let p := q_proto c in
+  let now := q_now c in
+  let '(l1w, l2, s0) := run_setup (q_setup c) empty_store empty_store empty_store now in
+  let l1 := if q_cold c then empty_store else l1w in
+  let r := q_cmd c in
+  let '(st', cs, cst) := serve1_f (plan_of (q_tier c) (q_idx c) (q_fault c)) (orca_of (q_cfg c)) r
+                           (mkFS (mkTS l1 false 0) (mkTS l2 false 0)) now in
+  let s1 := match cmd_of r with Some cm => fst (spec_step s0 now cm) | None => s0 end in
+  let d1 := of_dump (q_l1 c) in
+  let d2 := of_dump (q_l2 c) in
+  let corr :=
+    bytes_eqb (render_all p cs) (q_reply c) &&
+    Bool.eqb (q_closed c) (match cst with Closed => true | Open => false end) &&
+    stores_agree now (q_keys c) (t_store (f1 st')) d1 &&
+    (if q_two c then stores_agree now (q_keys c) (t_store (f2 st')) d2 else true) in
+  let acked := negb (q_closed c) && is_write r &&
+               match decode p (q_reply c) with Some (f :: _) => frame_is_success f | _ => false end in
+  let oracle := oracle10 c s0 s1 in
   if negb oracle then (if corr then 3 else 2) else if negb corr then 1 else 0.
+
+(* runs with the CHUNKED handler as L1: no fault model of that stack; the oracles alone (the
+   single map before/after the command comes from the reference semantics) *)
+Fixpoint spec_setup (l : list (cfg * req)) (s : store) (now : N) : store :=
+  match l with
+  | [] => s
+  | (_, r) :: rest => spec_setup rest (match cmd_of r with Some cm => fst (spec_step s now cm) | None => s end) now
+  end.
+Definition check10c (c : case10) : N :=
+  let now := q_now c in
+  let s0 := spec_setup (q_setup c) empty_store now in
+  let s1 := match cmd_of (q_cmd c) with Some cm => fst (spec_step s0 now cm) | None => s0 end in
+  if oracle10 c s0 s1 then 0 else 2.
